@@ -10,8 +10,9 @@ import CifModel.Lemmas.StoreSpecWorld
     * update_packet / remove_packet work on the packet BEHIND the position: `pending` is unchanged (`pending_upd`, `pending_rem`);
     * every other op of the history — calls on other CIFs, other iterators, a refused second get_packets on the same CIF — leaves
       `pending` unchanged (`pending_other`): the contract keeps everything else away from a CIF with an open iterator.
-  Hence (`delivered_prefix`): the packets an iterator delivers over the rest of ANY in-contract history are a prefix of what was
-  pending — each packet once, in order.
+  Hence (`delivered_prefix`, `delivered_prefix_all`): the packets an iterator delivers over the rest of ANY in-contract history are a
+  prefix of what was pending — each packet once, in order; a closed or aborted iterator delivers nothing more (`step_dead`,
+  `delivered_dead`: a dead entry of the iterator table stays dead).
 -/
 namespace CifModel.Store
 open Gen.ErrCodes World
@@ -724,5 +725,143 @@ theorem delivered_prefix (hstep : ∀ w op, WOk w → inContract w op = true →
       refine ⟨rest, ?_, e2⟩
       simp only [hnx, Bool.false_eq_true, if_false, List.nil_append]
       exact e1
+
+-- ---- dead entries stay dead; the prefix theorem without restriction ---------------------------------------------------------------------
+
+theorem getD_none_of_ge {α} (l : List (Option α)) (i : Nat) (h : l.length ≤ i) : l.getD i none = none := by
+  simp [List.getD, List.getElem?_eq_none h]
+
+/-- an iterator-table entry that is dead (closed, aborted, never granted) stays dead: entries come to life only by being appended -/
+theorem step_dead (w : World) (op : Op) (i : Nat) (hlt : i < w.its.length) (hd : w.its.getD i none = none) :
+    i < (step w op).1.its.length ∧ (step w op).1.its.getD i none = none := by
+  have happ : ∀ x : Option ITE, i < (w.its ++ [x]).length ∧ (w.its ++ [x]).getD i none = none := by
+    intro x
+    refine ⟨by simp; omega, ?_⟩
+    simp only [List.getD] at hd ⊢
+    rw [List.getElem?_append_left hlt]; exact hd
+  have hset : ∀ (j : Nat) (x : Option ITE), j ≠ i → i < (w.its.set j x).length ∧ (w.its.set j x).getD i none = none := by
+    intro j x hj
+    exact ⟨by simp [hlt], by rw [getD_set_ne_its _ _ _ _ hj]; exact hd⟩
+  have hnone : ∀ j, i < (w.its.set j none).length ∧ (w.its.set j none).getD i none = none := by
+    intro j
+    refine ⟨by simp [hlt], ?_⟩
+    by_cases hj : j = i
+    · subst hj; simp [List.getD, hlt]
+    · rw [getD_set_ne_its _ _ _ _ hj]; exact hd
+  have hlive : ∀ (j : Nat) (e : ITE) (s : Store), w.liveI j = some (e, s) → j ≠ i := by
+    intro j e s hl hji
+    have := liveI_its hl
+    rw [hji, hd] at this; cases this
+  cases op <;> simp only [step]
+  case cifDel c =>
+    split
+    · exact ⟨hlt, hd⟩
+    · refine ⟨by simp [hlt], ?_⟩
+      simp only [List.getD, List.getElem?_map] at hd ⊢
+      cases hq : w.its[i]? with
+      | none => rfl
+      | some o =>
+        rw [hq] at hd
+        simp only [Option.getD_some] at hd
+        subst hd
+        rfl
+  case itOpen l => split <;> exact happ _
+  case itNext j =>
+    split
+    · exact ⟨hlt, hd⟩
+    · rename_i e s hl; exact hset j _ (hlive j e s hl)
+  case itRem j =>
+    split
+    · exact ⟨hlt, hd⟩
+    · rename_i e s hl; exact hset j _ (hlive j e s hl)
+  case itClose j =>
+    split
+    · exact ⟨hlt, hd⟩
+    · exact hnone j
+  case itAbort j =>
+    split
+    · exact ⟨hlt, hd⟩
+    · exact hnone j
+  all_goals (repeat' split) <;> exact ⟨hlt, hd⟩
+
+
+
+/-- a dead iterator delivers nothing, whatever the history -/
+theorem delivered_dead (i : Nat) : ∀ (ops : List Op) (w : World), i < w.its.length → w.its.getD i none = none →
+    deliveredBy i ops (run w ops).2 = []
+  | [], _, _, _ => rfl
+  | op :: ops, w, hlt, hd => by
+    obtain ⟨h1, h2⟩ := step_dead w op i hlt hd
+    rw [run_cons]
+    simp only [deliveredBy]
+    rw [delivered_dead i ops _ h1 h2, List.append_nil]
+    cases hn : op.isNextOf i with
+    | false => rfl
+    | true =>
+      cases op with
+      | itNext j =>
+        have hj : j = i := by simpa [Op.isNextOf] using hn
+        subst hj
+        have hl : w.liveI j = none := by
+          unfold liveI; rw [hd]
+        simp only [step, hl, if_true]
+        rfl
+      | _ => simp [Op.isNextOf] at hn
+
+/-- … so, with no restriction on the history: the packets the next-calls on `i` deliver over ANY in-contract history are a prefix of
+    what was pending for `i` at its start (a close / abort of `i` ends the deliveries) -/
+theorem delivered_prefix_all (hstep : ∀ w op, WOk w → inContract w op = true → WOk (step w op).1) :
+    ∀ (ops : List Op) (w : World), WOk w → inContractHist w ops = true →
+    ∀ (i : Nat) (P : List (List (Str × V))), (absW w).pending i = some P →
+    ∃ rest, P = deliveredBy i ops (run w ops).2 ++ rest
+  | [], _, _, _, _, P, _ => ⟨P, rfl⟩
+  | op :: ops, w, h, hc, i, P, hp => by
+    have hc' : (inContract w op && inContractHist (step w op).1 ops) = true := hc
+    simp only [Bool.and_eq_true] at hc'
+    have h1 := hstep w op h hc'.1
+    cases hend : op.endsIter i with
+    | false =>
+      -- as in `delivered_prefix`, one step
+      obtain ⟨r1, e1, e2⟩ := delivered_prefix hstep [op] w h (by simp [inContractHist, hc'.1]) i P hp (by simp [hend])
+      have hrun : (run w [op]).1 = (step w op).1 := rfl
+      rw [hrun] at e2
+      obtain ⟨rest, e3⟩ := delivered_prefix_all hstep ops _ h1 hc'.2 i r1 e2
+      refine ⟨rest, ?_⟩
+      rw [run_cons]
+      simp only [deliveredBy]
+      have hone : deliveredBy i [op] (run w [op]).2 = (if op.isNextOf i then (step w op).2.okPacket.toList else []) := by
+        show deliveredBy i [op] [(step w op).2] = _
+        simp [deliveredBy]
+      rw [hone] at e1
+      rw [e1, e3, List.append_assoc]
+    | true =>
+      obtain ⟨e, s, hi, _, _⟩ := entry_of_pending w h i P hp
+      have hnx : op.isNextOf i = false := by cases op <;> simp [Op.endsIter, Op.isNextOf] at hend ⊢
+      rw [run_cons]
+      simp only [deliveredBy, hnx, Bool.false_eq_true, if_false, List.nil_append]
+      cases hl : w.liveI i with
+      | none =>
+        -- the call is not executed: nothing changed
+        have hw : (step w op).1 = w := by
+          cases op with
+          | itClose j => have hj : j = i := by simpa [Op.endsIter] using hend
+                         subst hj; simp only [step, hl]
+          | itAbort j => have hj : j = i := by simpa [Op.endsIter] using hend
+                         subst hj; simp only [step, hl]
+          | _ => simp [Op.endsIter] at hend
+        rw [hw] at h1 hc' ⊢
+        exact delivered_prefix_all hstep ops w h1 hc'.2 i P hp
+      | some pr =>
+        have hlt := getD_some_lt _ _ _ hi
+        have hdead : i < (step w op).1.its.length ∧ (step w op).1.its.getD i none = none := by
+          cases op with
+          | itClose j => have hj : j = i := by simpa [Op.endsIter] using hend
+                         subst hj; simp only [step, hl]; exact ⟨by simp [hlt], by simp [List.getD, hlt]⟩
+          | itAbort j => have hj : j = i := by simpa [Op.endsIter] using hend
+                         subst hj; simp only [step, hl]; exact ⟨by simp [hlt], by simp [List.getD, hlt]⟩
+          | _ => simp [Op.endsIter] at hend
+        rw [delivered_dead i ops _ hdead.1 hdead.2]
+        exact ⟨P, rfl⟩
+
 
 end CifModel.Store
